@@ -199,10 +199,21 @@ package syncer
 
 //@ pred queueClean(q): forall i int :: 0 <= i && i < len(q) ==> q[i].Cmd != "multi" && q[i].Cmd != "exec"
 
+// ---- a replay that stores no position on the target keeps one in memory (C01) -------------
+//@ func RedisOutput.keepPositionInMemory
+//@   arith int
+//@   properties C01
+//@   requires nonnil: ro != nil
+//@   modifies ro.checkpointInMem, ro.checkpointInMemDb
+//@   ensures the_position_is_kept_with_the_database_it_was_reached_in: ro.checkpointInMem.Offset == offset && ro.checkpointInMemDb == db
+
+// (RedisOutput.checkpoint hands out a pointer into the RedisOutput, which the generator rejects:
+// that it returns the kept database is covered by the replay driver only)
+
 //@ func RedisOutput.sendCmdsBatch$sendFuncOnce
 //@   arith int
 //@   properties C07 C09 C02 C01 C17
-//@   replay syncer_offsetWithoutRunId syncer_gcRunningReplay syncer_txnRecordWithoutRunId syncer_clusterCheckpointOrder
+//@   replay syncer_offsetWithoutRunId syncer_gcRunningReplay syncer_txnRecordWithoutRunId syncer_clusterCheckpointOrder syncer_inMemoryResumeDb
 //@   ghost var bLen mathint
 //@   ghost var bFirst string
 //@   ghost var bLast string
@@ -224,6 +235,7 @@ package syncer
 //@   assert at call Put: a_flush_puts_exactly_the_queue_in_order [C01]: (bLen - ite(shouldInTransaction, 1, 0) >= 0 && bLen - ite(shouldInTransaction, 1, 0) < len(cmdQueue) && !(shouldInTransaction && bLen == 0) ==> arg0 == cmdQueue[bLen - ite(shouldInTransaction, 1, 0)].Cmd && arg1 == cmdQueue[bLen - ite(shouldInTransaction, 1, 0)].Args) && (shouldInTransaction && bLen == 0 ==> arg0 == "multi") && (bLen - ite(shouldInTransaction, 1, 0) >= len(cmdQueue) ==> arg0 == "hset" || arg0 == "exec")
 //@   assert at call Exec: a_cluster_position_is_not_sent_in_parallel_with_the_commands_it_covers [C02]: ro.cfg.Redis.Type == config.RedisTypeCluster && !shouldInTransaction && bCpPuts == 1 ==> bLen == 1
 //@   assert at call Dispatch: a_cluster_position_is_not_sent_in_parallel_with_the_commands_it_covers [C02]: ro.cfg.Redis.Type == config.RedisTypeCluster && !shouldInTransaction && bCpPuts == 1 ==> bLen == 1
+//@   assert at call keepPositionInMemory: a_position_kept_in_memory_names_the_database_of_the_last_command_taken [C01]: db == lastDb && offset == lastOffset
 //@   assert at call Exec: the_whole_queue_is_in_the_batch [C01]: bLen >= len(cmdQueue) + ite(shouldInTransaction, 2, 0)
 //@   assert at call Dispatch: the_whole_queue_is_in_the_batch [C01]: bLen >= len(cmdQueue) + ite(shouldInTransaction, 2, 0)
 //@   ensures sent: result == nil && !isPipeline ==> len(cmdQueue) == 0
@@ -289,7 +301,7 @@ package syncer
 //@   ghost var unqueued mathint = 0
 //@   ghost var rcvCmd string
 //@   ghost var rcvOff mathint
-//@   ghost var rcvDb mathint
+//@   ghost var rcvDb mathint = 0 - 1
 //@   set rcvCmd = recv.Cmd after recv sendBuf
 //@   set rcvOff = recv.Offset after recv sendBuf
 //@   set rcvDb = recv.Db after recv sendBuf
@@ -297,6 +309,7 @@ package syncer
 //@   set unqueued = ite(txnStatus == txnStatusBegin || txnStatus == txnStatusCommit, 0, unqueued) after store txnStatus
 //@   set unqueued = 0 after store cmdQueue
 //@   assert after store cmdQueue: received_command_is_appended_at_the_end [C01]: unqueued == 1 ==> len(cmdQueue) >= 1 && cmdQueue[len(cmdQueue) - 1].Cmd == rcvCmd && cmdQueue[len(cmdQueue) - 1].Offset == rcvOff && cmdQueue[len(cmdQueue) - 1].Db == rcvDb
+//@   assert after store lastDb: the_database_of_the_last_command_taken_is_remembered [C01]: rcvDb >= 0 ==> lastDb == rcvDb
 //@   assert at call sendFunc: cp_absorbed [C02 C09]: shouldUpdateCP ==> pending == 0 - 1 || lastOffset < pending || txnStatus == txnStatusCommit
 //@   assert at call sendFunc: txn_whole [C09]: !inTransaction || txnStatus == txnStatusCommit
 //@   assert at call sendFunc: cp_monotone [C07]: shouldUpdateCP ==> lastOffset >= tCpHigh
